@@ -85,6 +85,23 @@ def direct_traces(seed, count, length):
     return traces
 
 
+def crowd_traces():
+    """more distinct senders than any bounded table of session states holds, between two messages of one sender"""
+    out = []
+    for n in (50, 1100, 2300):
+        others = sdenv.hosts(n)
+        for victim_mc in (True, False):
+            seq = [{"src": "a1", "mc": victim_mc, "rb": True, "sid": 5}, {"src": "a1", "mc": victim_mc, "rb": True, "sid": 6},
+                   {"src": "a1", "mc": not victim_mc, "rb": True, "sid": 9}]
+            seq += [{"src": h, "mc": i % 2 == 0, "rb": True, "sid": 1 + i % 7} for i, h in enumerate(others)]
+            seq += [{"src": "a1", "mc": victim_mc, "rb": True, "sid": 1},         # the victim rebooted: must be detected
+                    {"src": "a1", "mc": not victim_mc, "rb": True, "sid": 10},    # the other channel: no reboot
+                    {"src": others[0], "mc": True, "rb": True, "sid": 1}]         # the oldest of the crowd: same id again = reboot
+            out.append({"cfg": {"srcs": SRCS + others, "direct": True}, "ev": run_direct(seq), "sched": seq, "mode": "direct",
+                        "diag": {"family": "crowd of %d senders" % n}})
+    return out
+
+
 def protocol_traces(seed, count, length):
     cfg = {"srcs": SRCS, "direct": False}
     traces = []
@@ -117,7 +134,7 @@ def check(ctx):
     m1.caught("SwGE", "C07_quick.cfg")
     if not ctx.quick:
         m1.holds("closure 2 senders x 2 channels", "C07_quick.cfg", {"Q_": "T_"}, timeout=3000)
-    d = direct_traces(ctx.seed, *ctx.pick((60, 120), (600, 300)))
+    d = direct_traces(ctx.seed, *ctx.pick((60, 120), (600, 300))) + crowd_traces()
     bad1, ms1 = judge(ctx, "Mon_C07", d, "check_received direct",
                       lambda tr: {"mode": "direct", "sched": tr["sched"], "trace": tr["ev"]})
     p = protocol_traces(ctx.seed, *ctx.pick((120, 40), (1500, 60)))
@@ -141,7 +158,9 @@ def check(ctx):
 def replay(ctx, rep):
     p = rep["payload"]
     if p["mode"] == "direct":
-        tr = {"cfg": {"srcs": SRCS, "direct": True}, "ev": run_direct(p["sched"]), "sched": p["sched"]}
+        names = sorted({m["src"] for m in p["sched"]} - set(SRCS))
+        sdenv.hosts(1 + max([int(x[1:]) for x in names] + [0]))
+        tr = {"cfg": {"srcs": SRCS + names, "direct": True}, "ev": run_direct(p["sched"]), "sched": p["sched"]}
     else:
         ev, _ = run_protocol(p["sched"], [tuple(x) for x in p["spread"]])
         tr = {"cfg": {"srcs": SRCS, "direct": False}, "ev": monpass.add_adv(ev), "sched": p["sched"], "spread": p["spread"]}
